@@ -1,62 +1,48 @@
-(* C02 -- model of rpylib/distribution/variate/inversion.py (InversionMethod.sample_with_u) together with
-   StatesManager.project_index_to_state_increment of rpylib/distribution/pairing.py (tree with the `<=` repair).
+(* C02 -- model of rpylib/distribution/variate/inversion.py (InversionMethod.sample_with_u) on top of the model of
+   StatesManager.project_index_to_state_increment (Model/StatesManager.v, tree with the repair a073fcb: a restart at
+   x == max_logged resumes after the pairing index of the last LOGGED state).
    State of the machine: the two deques (_cumulative_probabilities, _simulated_state_increments; lists read
-   left to right, append at the end) and StatesManager._last_projected_index.
-   The enumeration is abstract: proj : index -> state (pairing.project), inside : state -> bool
-   (not StatesManager.is_outside), F = max_frontier_indices, prob = probability_to_jump_to_state,
+   left to right, append at the end) and the StatesManager pair (_last_projected_index, _last_logged_index).
+   The enumeration is abstract: proj : index -> state (pairing.project), outside : state -> bool
+   (StatesManager.is_outside), F = max_frontier_indices, prob = probability_to_jump_to_state,
    M = _max_storage. *)
 From Coq Require Import List Arith ZArith QArith Bool.
-From RV Require Import Base.QB Model.Huffman.
+From RV Require Import Base.QB Model.Huffman Model.StatesManager.
 Import ListNotations.
 Open Scope Q_scope.
 
 Section Inversion.
   Context {S : Type}.
   Variable proj : Z -> S.
-  Variable inside : S -> bool.
+  Variable outside : S -> bool.
   Variable F : Z.
   Variable prob : S -> Q.
   Variable M : Z.
 
-  Record ist := { i_cum : list Q; i_states : list S; i_lpi : Z }.
+  Record ist := { i_cum : list Q; i_states : list S; i_sm : Z * Z }.
 
   (* what sample_with_u returns: a state, or (break_here) a state drawn at random on the frontier, or
      Python's None (only if the loop body were never entered -- unreachable) *)
   Inductive iout := Out (s : S) | Frontier | NoOut.
 
-  (* while xx <= max_frontier: if not is_outside(project(xx)): found; xx += 1      -> (found state?, xx) *)
-  Fixpoint sm_search (fuel : nat) (xx : Z) : option S * Z :=
-    match fuel with
-    | O => (None, xx)
-    | Datatypes.S f =>
-        if (xx <=? F)%Z then
-          if inside (proj xx) then (Some (proj xx), xx) else sm_search f (xx + 1)%Z
-        else (None, xx)
-    end.
-
-  (* project_index_to_state_increment(x, max_logged = M) with _last_projected_index = lpi:
-     returns (state or None when break_here, new _last_projected_index) *)
-  Definition sm_project (x lpi : Z) : option S * Z :=
-    let lpi1 := if (x =? M)%Z then (-1)%Z else lpi in
-    let xx := Z.max x (lpi1 + 1) in
-    sm_search (Z.to_nat (F + 2 - xx)) xx.
-
   Definition zlen {A : Type} (l : list A) : Z := Z.of_nat (length l).
 
-  (* the `while u > s` loop *)
+  (* the `while u > s` loop; project_index_to_state_increment(x, self._max_storage) = sm_step_index ... x M *)
   Fixpoint inv_loop (fuel : nat) (u s : Q) (x : Z) (st : ist) (out : iout) : ist * iout :=
     match fuel with
     | O => (st, out)
     | Datatypes.S f =>
         if Qltb s u then
           let x' := (x + 1)%Z in
-          match sm_project x' (i_lpi st) with
-          | (None, lpi') => ({| i_cum := i_cum st; i_states := i_states st; i_lpi := lpi' |}, Frontier)
-          | (Some state, lpi') =>
+          let r := sm_step_index S proj outside F (i_sm st) x' M in
+          match fst r with
+          | None => ({| i_cum := i_cum st; i_states := i_states st; i_sm := snd r |}, Frontier)
+          | Some i =>
+              let state := proj i in
               let s' := s + prob state in
               let st' := if (zlen (i_cum st) <? M)%Z
-                         then {| i_cum := i_cum st ++ [s']; i_states := i_states st ++ [state]; i_lpi := lpi' |}
-                         else {| i_cum := i_cum st; i_states := i_states st; i_lpi := lpi' |} in
+                         then {| i_cum := i_cum st ++ [s']; i_states := i_states st ++ [state]; i_sm := snd r |}
+                         else {| i_cum := i_cum st; i_states := i_states st; i_sm := snd r |} in
               inv_loop f u s' x' st' (Out state)
           end
         else (st, out)
@@ -72,11 +58,12 @@ Section Inversion.
       | None => (st, NoOut)
       end.
 
-  (* __init__: project_index_to_state_increment(0) with _last_projected_index = -1 and max_logged = -1 *)
+  (* __init__: project_index_to_state_increment(0) on a fresh StatesManager, max_logged = -1 (the default) *)
   Definition inv_init : option ist :=
-    match sm_search (Z.to_nat (F + 2)) 0%Z with
-    | (Some s0, lpi) => Some {| i_cum := [prob s0]; i_states := [s0]; i_lpi := lpi |}
-    | (None, _) => None
+    let r := sm_step_index S proj outside F sm_init 0 (-1) in
+    match fst r with
+    | Some i => Some {| i_cum := [prob (proj i)]; i_states := [proj i]; i_sm := snd r |}
+    | None => None
     end.
 
   (* a sequence of draws from a given state: outputs in order *)
